@@ -519,7 +519,63 @@ def r4_lhs(ctx, repo):
                "the default Latin-hypercube path does not run the classic one-sample-per-stratum construction with (n=#parameters, samples=N)", "wiring not recognised", key="default-criterion")
 
 
+def builder_mutates_levels(fn):
+    """the doe builder changes the level lists of the dictionary it is given (D[key][1] = .., D[key].append(..), .sort())"""
+    ps = func_params(fn)
+    if not ps:
+        return None
+    d = ps[0]
+    for n in ast.walk(fn):
+        if isinstance(n, ast.Subscript) and not isinstance(n.ctx, ast.Load) and isinstance(n.value, ast.Subscript) and access_path(n.value.value) == d:
+            return n
+        if isinstance(n, ast.Call) and isinstance(n.func, ast.Attribute) and n.func.attr in ("append", "sort", "extend", "insert", "reverse", "pop", "remove", "clear") \
+                and isinstance(n.func.value, ast.Subscript) and access_path(n.func.value.value) == d:
+            return n
+    return None
+
+
+def level_lists_fresh(ctx, repo, rule, gname):
+    """a generator hands the doe builder a dictionary name -> list of levels; the builders adjust these lists in place, so
+    each must be a list made for the call, not the `bounds` list of the problem's parameter"""
+    g = repo.cls(gname, "operators")
+    fn = g.methods.get("generate")
+    doe = repo.module("doe")
+    if fn is None:
+        return
+    selfn = func_params(fn)[0]
+    T = Terms(fn)
+    for s_ in stmts_of(fn):
+        if isinstance(s_, (ast.For, ast.While, ast.If, ast.Try, ast.With)):
+            continue
+        for c in calls_in(s_):
+            b = access_path(c.func) or ""
+            if b.split(".")[-1] in doe.functions and b.split(".")[-1].startswith("build_") and c.args:
+                mut = builder_mutates_levels(doe.functions[b.split(".")[-1]])
+                arg = T.expand(c.args[0], at=s_)
+                vals = []
+                if isinstance(arg, ast.DictComp):
+                    vals = [arg.value]
+                elif isinstance(arg, ast.Dict):
+                    vals = list(arg.values)
+                aliased = [v for v in vals if (access_path(v) or "").endswith("['bounds']")]
+                fresh = [v for v in vals if isinstance(v, (ast.List, ast.ListComp)) or (isinstance(v, ast.Call) and access_path(v.func) in ("list", "copy.copy", "copy.deepcopy"))
+                         or (isinstance(v, ast.Call) and isinstance(v.func, ast.Attribute) and v.func.attr == "copy")
+                         or (isinstance(v, ast.Subscript) and isinstance(v.slice, ast.Slice))]
+                if aliased and mut is not None:
+                    ctx.violated(rule, "%s.generate" % gname, where(g.module, s_),
+                                 "the builder %s receives the parameters' own `bounds` lists (%s) and rewrites them in place (%s, doe.py:%d): after one design the problem's bounds "
+                                 "are changed for every later generator and algorithm" % (b, text(aliased[0]), text(mut)[:40], mut.lineno), key="fresh-levels")
+                elif vals and len(fresh) == len(vals):
+                    ctx.holds(rule, "%s.generate" % gname, where(g.module, s_), "every level list handed to %s is made for the call" % b, key="fresh-levels")
+                elif mut is None and vals:
+                    ctx.holds(rule, "%s.generate" % gname, where(g.module, s_), "%s does not change the lists it is given" % b, key="fresh-levels")
+                else:
+                    ctx.inconclusive(rule, "%s.generate" % gname, where(g.module, s_), "the dictionary handed to %s (%s) is not recognised" % (b, text(arg)[:80]), key="fresh-levels")
+
+
 def r5_arity(ctx, repo):
+    for gname in ("LHSGenerator", "HaltonGenerator"):
+        level_lists_fresh(ctx, repo, "R5", gname)
     for gname in ("LHSGenerator", "HaltonGenerator"):
         g = repo.cls(gname, "operators")
         fn = g.methods.get("generate")
@@ -528,6 +584,14 @@ def r5_arity(ctx, repo):
         ok = len(loops) == 1 and any(isinstance(s, ast.Assign) and isinstance(s.targets[0], ast.Subscript) for s in loops[0].body) \
             and not any(isinstance(s, (ast.If, ast.Continue, ast.Break)) for s in stmts_of(loops[0]))
         c = [c for c in calls_in(fn) if (access_path(c.func) or "") in ("build_lhs", "build_halton")]
+        if not ok and c and c[0].args:
+            # the dictionary as a term: one entry per declared parameter, nothing filtered
+            T_ = Terms(fn)
+            for s_ in stmts_of(fn):
+                if not isinstance(s_, (ast.For, ast.While, ast.If, ast.Try, ast.With)) and any(x is c[0] for x in calls_in(s_)):
+                    a_ = T_.expand(c[0].args[0], at=s_)
+                    ok = isinstance(a_, ast.DictComp) and len(a_.generators) == 1 and not a_.generators[0].ifs \
+                        and access_path(a_.generators[0].iter) == selfn + ".parameters"
         okn = bool(c) and any(k.arg == "num_samples" and text(k.value) == selfn + ".number" for k in c[0].keywords)
         astate = True if (ok and okn) else (False if (c and not okn) else None)
         ctx.check3(astate, "R5", "%s.generate" % gname, where(g.module, fn), "one [lo, hi] entry per declared parameter; num_samples = requested number",
